@@ -23,8 +23,8 @@ def harnesses(tier):
             H.append(BHarness('S1_antisym_%s_%s' % (case.lower(), n), 'c05_hllc.cpp', 'h_s1_antisym', defs=ndefs(n) + ['CASE_' + case], noinline=True, tie_free=True, strict=True, split=4, timeout=1500, maxpaths=20000, stubs={'~sample_vacuum_generation': hook_vacgen},
                 what='HLLC flux antisymmetry: F(R,L,-n) == -F(L,R,n) for mass, 3 momentum components and energy, on every tie-free feasible path pair (%s)' % {'NONVAC': 'both states non-vacuum, incl. vacuum generation', 'VACL': 'left state vacuum', 'VACR': 'right state vacuum'}[case],
                 bound='gamma in (1.00000001,2], densities/pressures >= 0, velocities and face velocity arbitrary reals, normal = %s; loop-free; exclusions: ties of computed comparisons; computed quantities guarded by +DBL_MIN within 2^-940 of zero; rounded fan edges misordered (SL>=SR) on vacuum-generation paths; inputs are 0 or in [2^-100,2^100] in magnitude (no overflow/underflow)' % (NORMALS[n],)))
-    for nm, entry, what in (('S3_vacuum_eq_exact', 'h_s3_hllc_eq_exact_vacuum', 'one-sided vacuum: HLLC samples the same state (flag, rho, u, P as terms) as the exact solver at x/t=0; sampled rho,P >= 0'),
-                            ('S3_vacgen_eq_exact', 'h_s3_hllc_eq_exact_vacgen', 'vacuum generation: HLLC samples the same state as the exact solver at x/t=0; sampled rho,P >= 0')):
+    for nm, entry, what in (('S3_vacuum_eq_exact', 'h_s3_hllc_eq_exact_vacuum', 'one-sided vacuum: HLLC samples the same state (flag, rho, u, P as terms) as the exact solver at x/t=0'),
+                            ('S3_vacgen_eq_exact', 'h_s3_hllc_eq_exact_vacgen', 'vacuum generation: HLLC samples the same state as the exact solver at x/t=0')):
         H.append(BHarness(nm, 'c11_exact.cpp', entry, tie_free=True, strict=True, timeout=900, what=what, bound='gamma in (1.00000001,2]; rho,P,a in [2^-100,2^100], u zero or within that range; loop-free; ties excluded'))
     return H
 
@@ -32,7 +32,7 @@ def run(tier, only=None):
     ev = Evidence('C05', tier); work = Work('C05')
     ev.assumptions += ['IEEE-UF abstraction: doubles as reals, rounded ops uninterpreted with ground axioms A1-A5,A8,A9 (theorems of binary64 RNE on finite values); unsat => holds bit-for-bit',
                        'exclusions (stated, counted in evidence): ties of ordered comparisons on computed values; quantities guarded by +DBL_MIN assumed not within 2^-940 of zero; NaN/inf/overflow/underflow outside']
-    ev.outside += ['Galilean boost invariance, identical-state analytic flux, textbook-HLLC equality, continuity across wave-direction changes, 1.5 c_s mirror clause: hold only up to round-off, not decidable at term level']
+    ev.outside += ['S4 sampled rho,P >= 0 inside the vacuum fan: needs the real-number fact base>0 <=> SL>0 (near-tie in binary64), not term-decidable', 'Galilean boost invariance, identical-state analytic flux, textbook-HLLC equality, continuity across wave-direction changes, 1.5 c_s mirror clause: hold only up to round-off, not decidable at term level']
     try:
         tv_run_b(work, 'c05_hllc.cpp', [('tv_flux', 14)], ev, defs=ndefs('xp') + ['CASE_NONVAC'], nvec=200)
         hb = [h for h in harnesses(tier) if not only or h.name.startswith(only)]
